@@ -125,7 +125,9 @@ def ob_producers(n, plen):
             o_ = [sym_str(plen, 'o%d' % i, alphabet='ab/ ')]
             if choose(2, 'second%d' % i): o_.append(sym_str(plen, 'p%d' % i, alphabet='ab/ '))
             outs.append(o_)
-            b.add_build(nb.NinjaBuildElement(allout, list(o_), 'R', 'i'))
+            rule = ['R', 'phony'][choose(2, 'rule%d' % i)]      # aliases / run targets / the all, test, install aggregates are phony statements
+            e = nb.NinjaBuildElement(allout, list(o_), rule, 'i')
+            b.add_build(e)
         flat = [x for o_ in outs for x in o_]
         dup = False
         for i in range(len(flat)):
